@@ -1496,7 +1496,8 @@ def _optional_accessors(prog):
         if f.kind not in ("Fn", "AssocFn") or not (f.ret or "").startswith("std::option::Option<"):
             continue
         for bi, t in f.calls():
-            if (t.get("callee") or "") == TRY_BRANCH and t["args"]:
+            # `field?`, or an Option combinator that answers None for None (`field.map(..)`, `and_then`, `zip`, `filter`, `copied` ...)
+            if ((t.get("callee") or "") == TRY_BRANCH or _re.search(r"Option::<T>::(map|and_then|zip|filter|copied|cloned|as_ref|xor)$", t.get("callee") or "")) and t["args"]:
                 try:
                     e = str(rules_sym.deep(f, t["args"][0], d=4))
                 except Exception:
@@ -1564,5 +1565,7 @@ def optional_setting_unwrap(run, R="OPT1"):
                           f.id, c.rsplit("::", 1)[-1], e[:160], "/".join(g.rsplit("::", 1)[-1] for g in OPT_GUARD_FNS)))
     run.check(bool(acc), R, R + "|accessors", "-", "accessors answering None for an absent bank setting (found from the code): %s" % sorted(acc),
               "no accessor of an optional bank setting found (anchor lost)")
-    run.floor(R, "insisting uses of optional bank settings", n, 4)
+    # 4 such uses on the pinned tree; a clean-up that replaces an `is_none` + `unwrap` pair by `let Some(..) else` removes uses
+    # without harm, so the vacuity guard is the accessor anchor above plus one remaining use, not the full count
+    run.floor(R, "insisting uses of optional bank settings", n, 1)
     return n
